@@ -102,6 +102,8 @@ func run(family string, line []byte, rec *recorder, opt string) {
 		runAlias(line, rec)
 	case "accreplay":
 		runAccReplay(line, rec)
+	case "rmodel":
+		runRModel(line, rec)
 	case "demux", "pair", "merge", "skip", "rewind", "rfault", "reader", "robust", "acc":
 		var sc streamScenario
 		if err := json.Unmarshal(line, &sc); err != nil {
